@@ -654,12 +654,15 @@ class C08(Base):
     def run(self, case, ctx):
         rep = Report()
         outs = {}
+        sep_rows = {}
         for k, ex in enumerate(case["executions"]):
             out = ctx.execute(ex)
             if out["status"] != "ok":
                 rep.probes["aborted_executions"] += 1
                 return rep
             outs[ex["mode"]] = parse_outputs(out)
+            if ex["mode"] == "separate":
+                sep_rows = rows_by_file(out)
         maps = maps_for(case, case["executions"][0], ctx)
         diff = O.cfgval(case["config"], "-diff")
         A, S, J = outs["all"], outs["separate"], outs["joined"]
@@ -746,11 +749,21 @@ class C08(Base):
                     rep.clauses["exact-union"] += 1
                     if jr["pairs"] != union:
                         missing = [p for p in union if p not in set(jr["pairs"])]
-                        rows_a = len(_TOKM.findall(a["HitEnum"]))
+                        # where do the missing pairs come from?  (segments of the two parts, from the writer tap)
+                        nonfirst = set()
+                        nseg = []
+                        for fname, rec in (("out.xmap", a), ("out_1.xmap", b)):
+                            row = next((r for r in sep_rows.get(fname, []) if r["q"] == q), None)
+                            if row is None:
+                                continue
+                            nseg.append(sum(1 for sg in row["segs"] if sg["pos"]))
+                            for sg in row["segs"][1:]:
+                                nonfirst.update((p_[1], p_[2]) for p_ in sg["pos"] if p_[0] == "P")
+                        cause = "non-first-segment-dropped" if missing and all(m_ in nonfirst for m_ in missing) else "other"
                         rep.add([O.V("exact-union", f"query {q}: union of the parts is a valid matching of {len(union)} "
                                                     f"pairs but the joined record has {len(jr['pairs'])}; missing "
-                                                    f"{missing[:6]}", "exact-union", record=jr["line"],
-                                     parts=[a["line"], b["line"]])], 2)
+                                                    f"{missing[:6]} (parts have {nseg} non-empty segments)",
+                                     f"exact-union|{cause}", record=jr["line"], parts=[a["line"], b["line"]])], 2)
         # a query with both passes eligible but not joined is allowed (the statement says 'only'); count it
         for q in both:
             if q not in joined:
@@ -1062,6 +1075,11 @@ class C11(Base):
             a, b = recs.get(q), recs.get(tid)
             rep.clauses["twin"] += 1
             n = len(maps.queries[q]["pos"])
+            if maps.queries[q]["pos"] and [p_ - maps.queries[q]["pos"][0] for p_ in maps.queries[q]["pos"]] == \
+                    [p_ - maps.queries[tid]["pos"][0] for p_ in maps.queries[tid]["pos"]]:
+                # a palindromic query is its own mirror image: "opposite orientation" cannot hold for it
+                rep.probes["palindromic_twins_skipped"] += 1
+                continue
             diag = c11_diagnose(round1.get(q, []), round1.get(tid, []), n)
             diag += "|sj=" + ("0" if float(case["config"].get("-sj", 1)) == 0 else "pos")
             if (a is None) != (b is None):
